@@ -29,6 +29,14 @@ type TapTarget struct {
 
 	mu       sync.Mutex
 	attempts map[string]int
+	starts   int
+}
+
+// Starts returns the number of Start calls seen so far.
+func (t *TapTarget) Starts() int {
+	t.mu.Lock()
+	defer t.mu.Unlock()
+	return t.starts
 }
 
 func NewTap(name string, log *Log, inner module.DeliveryTarget) *TapTarget {
@@ -42,6 +50,7 @@ func (t *TapTarget) Init(*config.Map) error { return nil }
 func (t *TapTarget) Start(ctx context.Context, msgMeta *module.MsgMetadata, mailFrom string) (module.Delivery, error) {
 	t.mu.Lock()
 	t.attempts[msgMeta.ID]++
+	t.starts++
 	att := t.attempts[msgMeta.ID]
 	t.mu.Unlock()
 	id := t.Log.newDelivery()
